@@ -128,7 +128,9 @@ def _isolate(l2_path, task):
 
 
 def replay_l2(l2_path, cases_path, handler, seed=0, jobs=16, chunk=400, sample_cases=None, max_cases=None):
-    chunks = replay._file_chunks(cases_path, chunk, max_cases)
+    chunks = replay._file_chunks(cases_path, chunk, None)
+    if max_cases:
+        sample_cases = min(sample_cases, max_cases) if sample_cases else max_cases
     if sample_cases and len(chunks) * chunk > sample_cases:
         want = max(1, sample_cases // chunk)
         step = len(chunks) / float(want)
